@@ -207,11 +207,40 @@ def _make_g1(pid):
     return g1
 
 
+# module-level functions whose signature is fixed by the slot they are plugged into (they may ignore what they are handed)
+CALLBACK_SIGNATURES = {
+    ("writing.NO_MERGE", "writer"): "merge policy: (writer, segments) -> segments",
+    ("writing.CLEAR", "writer"): "merge policy",
+    ("writing.CLEAR", "segments"): "merge policy: drops every segment by definition",
+    ("highlight.SCORE", "fragment"): "fragment order function: (fragment) -> sort key; SCORE keeps the scored order",
+    ("util.make_weighted_tree", "kwargs"): "imported by query.compound but called nowhere; nothing to forward to",
+}
+
+
+def unread_function_parameters(prog, funcs):
+    """module-level functions (no interface to conform to) with a named parameter the body never reads"""
+    out = []
+    for f in funcs:
+        if f.cls is not None or common.is_abstract_body(f) or common.body_is_trivial(f):
+            continue
+        a = f.node.args
+        names = [x.arg for x in a.args + a.kwonlyargs] + ([a.kwarg.arg] if a.kwarg else []) + ([a.vararg.arg] if a.vararg else [])
+        used = set(x.id for x in ast.walk(f.node) if isinstance(x, ast.Name))
+        for p in names:
+            if p not in used and not p.startswith("_") and (f.short, p) not in CALLBACK_SIGNATURES:
+                out.append((f, p))
+    return out
+
+
 def _make_g2(pid):
     def g2(ctx):
         prog = ctx.prog
         funcs = anchor_funcs(prog, pid)
         n, bad = dropped_parameters(prog, funcs)
+        for f, p in unread_function_parameters(prog, funcs):
+            ctx.ob(f, False, "parameter `%s` of the function %s is read" % (p, f.name),
+                   detail="a module-level function has no interface to conform to: a named parameter the body never reads is a setting "
+                          "the caller passes in vain", loc=f.loc)
         if n < 20:
             raise AnalysisError("%s-G2: only %d functions in the anchor files" % (pid, n))
         ctx.ob("%s anchor files" % pid, True, "%d functions examined for parameters that stopped being forwarded" % n)
